@@ -490,4 +490,151 @@ theorem fromCstr_rep (N k : Nat) (buf : List Nat) (n zeroCh oneCh : Nat) (hn : n
       simp [List.take_take]
     simp only [Spec.ofString, e']
 
+/-! ## histories -/
+
+/-- the documented preconditions of one operation (the generator of `checks/props/c17.py` produces
+    exactly the operations with `valid = true`) -/
+def Op.valid (N : Nat) : Op → Bool
+  | .set _ pos _ => decide (pos < N)
+  | .reset _ pos => decide (pos < N)
+  | .flip _ pos => decide (pos < N)
+  | .refAssign _ pos _ => decide (pos < N)
+  | .refFlip _ pos => decide (pos < N)
+  | .refCopy _ pos _ spos => decide (pos < N) && decide (spos < N)
+  | .fromUll _ v => decide (v < 2 ^ 64)
+  | .fromStr _ str pos n zeroCh oneCh =>
+    decide (pos ≤ str.length) && (usedChars N str pos n).all (fun c => c == zeroCh || c == oneCh)
+  | .fromCstr _ buf n zeroCh oneCh =>
+    (n == NPOS || decide (n ≤ buf.length)) && (usedChars N buf 0 n).all (fun c => c == zeroCh || c == oneCh)
+  | _ => true
+
+/-- every live object represents its abstract counterpart -/
+def StoreRep (N k : Nat) (st : Store k) (sp : Spec.Store) : Prop := ∀ o, Rep N k (st o) (sp o)
+
+theorem put_rep {N k : Nat} {st : Store k} {sp : Spec.Store} (h : StoreRep N k st sp) (o : Nat) {r : Words k}
+    {b : Spec.Bits} (hr : Rep N k r b) : StoreRep N k (st.put o r) (sp.put o b) := by
+  intro j
+  by_cases e : j = o
+  · simp [Store.put, Spec.Store.put, e, hr]
+  · simp [Store.put, Spec.Store.put, e, h j]
+
+theorem init_storeRep (N k : Nat) : StoreRep N k (Store.init N k) Spec.Store.init := fun _ => init_rep N k
+
+/-- one valid operation: never an error, every object still represented (padding included), and
+    the abstract state moved as `std::bitset` specifies -/
+theorem step_rep {N k : Nat} (hN : 0 < N) {st : Store k} {sp : Spec.Store} (h : StoreRep N k st sp) (op : Op)
+    (hv : Op.valid N op = true) :
+    ∃ st', step N st op = .ok st' ∧ StoreRep N k st' (Spec.step N sp op) := by
+  cases op with
+  | setAll o =>
+    obtain ⟨r, hs, hr⟩ := setAll_rep hN (h o)
+    exact ⟨_, by simp [step, hs], put_rep h o hr⟩
+  | resetAll o => exact ⟨_, by simp [step], put_rep h o (resetAll_rep (h o))⟩
+  | flipAll o =>
+    obtain ⟨r, hs, hr⟩ := flipAll_rep hN (h o)
+    exact ⟨_, by simp [step, hs], put_rep h o hr⟩
+  | set o pos v =>
+    obtain ⟨r, hs, hr⟩ := set_rep (h o) pos (by simpa [Op.valid] using hv) v
+    exact ⟨_, by simp [step, hs], put_rep h o hr⟩
+  | reset o pos =>
+    obtain ⟨r, hs, hr⟩ := reset_rep (h o) pos (by simpa [Op.valid] using hv)
+    exact ⟨_, by simp [step, hs], put_rep h o hr⟩
+  | flip o pos =>
+    obtain ⟨r, hs, hr⟩ := flip_rep (h o) pos (by simpa [Op.valid] using hv)
+    exact ⟨_, by simp [step, hs], put_rep h o hr⟩
+  | refAssign o pos v =>
+    obtain ⟨r, hs, hr⟩ := refAssign_rep (h o) pos (by simpa [Op.valid] using hv) v
+    exact ⟨_, by simp [step, hs], put_rep h o hr⟩
+  | refFlip o pos =>
+    obtain ⟨r, hs, hr⟩ := refFlip_rep (h o) pos (by simpa [Op.valid] using hv)
+    exact ⟨_, by simp [step, hs], put_rep h o hr⟩
+  | refCopy o pos src spos =>
+    simp only [Op.valid, Bool.and_eq_true, decide_eq_true_eq] at hv
+    have hg := refGet_eq (h src) spos hv.2
+    obtain ⟨r, hs, hr⟩ := refAssign_rep (h o) pos hv.1 (Spec.test (sp src) spos)
+    exact ⟨_, by simp [step, hg, hs], put_rep h o hr⟩
+  | andA o rhs =>
+    obtain ⟨r, hs, hr⟩ := andAssign_rep (h o) (h rhs)
+    exact ⟨_, by simp [step, hs], put_rep h o hr⟩
+  | orA o rhs =>
+    obtain ⟨r, hs, hr⟩ := orAssign_rep (h o) (h rhs)
+    exact ⟨_, by simp [step, hs], put_rep h o hr⟩
+  | xorA o rhs =>
+    obtain ⟨r, hs, hr⟩ := xorAssign_rep (h o) (h rhs)
+    exact ⟨_, by simp [step, hs], put_rep h o hr⟩
+  | band o a b =>
+    obtain ⟨r, hs, hr⟩ := andAssign_rep (h a) (h b)
+    exact ⟨_, by simp [step, hs], put_rep h o hr⟩
+  | bor o a b =>
+    obtain ⟨r, hs, hr⟩ := orAssign_rep (h a) (h b)
+    exact ⟨_, by simp [step, hs], put_rep h o hr⟩
+  | bxor o a b =>
+    obtain ⟨r, hs, hr⟩ := xorAssign_rep (h a) (h b)
+    exact ⟨_, by simp [step, hs], put_rep h o hr⟩
+  | assign o src => exact ⟨_, by simp [step], put_rep h o (h src)⟩
+  | not o src =>
+    obtain ⟨r, hs, hr⟩ := not_rep hN (h src)
+    exact ⟨_, by simp [step, hs], put_rep h o hr⟩
+  | fromUll o v =>
+    obtain ⟨r, hs, hr⟩ := fromUll_rep N k v (by simpa [Op.valid] using hv)
+    exact ⟨_, by simp [step, hs], put_rep h o hr⟩
+  | fromStr o str pos n zeroCh oneCh =>
+    simp only [Op.valid, Bool.and_eq_true, decide_eq_true_eq] at hv
+    obtain ⟨r, hs, hr⟩ := fromString_rep N k str pos n zeroCh oneCh hv.1 hv.2
+    exact ⟨_, by simp [step, hs], put_rep h o hr⟩
+  | fromCstr o buf n zeroCh oneCh =>
+    simp only [Op.valid, Bool.and_eq_true, Bool.or_eq_true, beq_iff_eq, decide_eq_true_eq] at hv
+    obtain ⟨r, hs, hr⟩ := fromCstr_rep N k buf n zeroCh oneCh hv.1 hv.2
+    exact ⟨_, by simp [step, hs], put_rep h o hr⟩
+
+/-- **Main theorem.** For every width `N ≥ 1`, every word size `2^k` and every history of valid
+    operations, of any length, starting from any represented store: the model never returns an error
+    and every object of the final store represents the corresponding object of the `std::bitset`
+    specification run on the same history. -/
+theorem run_refines {N k : Nat} (hN : 0 < N) : ∀ (ops : List Op) {st : Store k} {sp : Spec.Store},
+    StoreRep N k st sp → (∀ op, op ∈ ops → Op.valid N op = true) →
+    ∃ st', run N st ops = .ok st' ∧ StoreRep N k st' (Spec.run N sp ops)
+  | [], st, _, h, _ => ⟨st, rfl, h⟩
+  | op :: ops, st, sp, h, hv => by
+    obtain ⟨st1, hs1, hr1⟩ := step_rep hN h op (hv op (List.mem_cons_self))
+    obtain ⟨st', hs', hr'⟩ := run_refines hN ops hr1 (fun o ho => hv o (List.mem_cons_of_mem _ ho))
+    exact ⟨st', by simp [run, hs1, hs'], hr'⟩
+
+/-- histories from default-constructed objects -/
+theorem run_refines_init {N k : Nat} (hN : 0 < N) (ops : List Op) (hv : ∀ op, op ∈ ops → Op.valid N op = true) :
+    ∃ st', run N (Store.init N k) ops = .ok st' ∧ StoreRep N k st' (Spec.run N Spec.Store.init ops) :=
+  run_refines hN ops (init_storeRep N k) hv
+
+/-- non-vacuity: a history that crosses a word boundary with whole-set and single-bit operations -/
+example : (∀ op, op ∈ [Op.setAll 0, .flip 0 64, .fromUll 1 5, .xorA 0 1, .fromStr 2 [49, 48] 0 NPOS 48 49] →
+    Op.valid 65 op = true) := by decide
+
+/-- **Padding invariant over histories.** After any valid history the high `padding` bits of the last
+    storage word of every object are zero (and the array has exactly `num_words` words). -/
+theorem padding_inv_history {N k : Nat} (hN : 0 < N) (ops : List Op)
+    (hv : ∀ op, op ∈ ops → Op.valid N op = true) :
+    ∃ st', run N (Store.init N k) ops = .ok st' ∧ ∀ o, (st' o).length = numWords N k ∧
+      ∀ (hl : numWords N k - 1 < (st' o).length) (j : Nat), 2 ^ k - padding N k ≤ j → j < 2 ^ k →
+        (st' o)[numWords N k - 1].getLsbD j = false := by
+  obtain ⟨st', hs, hr⟩ := run_refines_init (k := k) hN ops hv
+  refine ⟨st', hs, fun o => ⟨(hr o).len, fun hl j hj1 hj2 => ?_⟩⟩
+  rw [(hr o).word _ hl j hj2]
+  have := last_pos_lt (N := N) (k := k) hN hj2
+  have hnot : ¬ (numWords N k - 1) * 2 ^ k + j < N := by rw [this]; omega
+  simp [hnot]
+
+/-- **Observers after a history** equal those of the specification: `test`/`operator[]`, `count`,
+    `all`, `any`, `none`, `==`. -/
+theorem run_observers {N k : Nat} (hN : 0 < N) (ops : List Op) (hv : ∀ op, op ∈ ops → Op.valid N op = true) :
+    ∃ st', run N (Store.init N k) ops = .ok st' ∧ ∀ o,
+      let f := Spec.run N Spec.Store.init ops o
+      (∀ pos, pos < N → test N (st' o) pos = .ok (Spec.test f pos) ∧ getConst N (st' o) pos = .ok (Spec.test f pos)
+        ∧ refGet N (st' o) pos = .ok (Spec.test f pos)) ∧
+      count (st' o) = Spec.count N f ∧ all N (st' o) = .ok (Spec.all N f) ∧ any (st' o) = Spec.any N f ∧
+      none (st' o) = Spec.none N f ∧
+      ∀ o2, eq (st' o) (st' o2) = Spec.eq N f (Spec.run N Spec.Store.init ops o2) := by
+  obtain ⟨st', hs, hr⟩ := run_refines_init (k := k) hN ops hv
+  refine ⟨st', hs, fun o => ⟨fun pos hp => ⟨test_eq (hr o) pos hp, getConst_eq (hr o) pos hp, refGet_eq (hr o) pos hp⟩,
+    count_eq' (hr o), all_eq hN (hr o), any_eq (hr o), none_eq (hr o), fun o2 => eq_eq (hr o) (hr o2)⟩⟩
+
 end Tetl.C17.Props
